@@ -30,6 +30,10 @@ def grep_case(rng):
         text = corpus.grep_text_plain(m, True)
     elif fmt == 'color':
         text = corpus.grep_text_git_color(m, True)
+    elif rng.random() < 0.3:
+        # rg --json --multiline: consecutive matching lines of a file in one record
+        m = [(p_, [(hits[0][0] + i, 'match', code, subs) for i, (_ln, _kind, code, subs) in enumerate(hits)]) for p_, hits in m]
+        text = corpus.rg_json_text_multiline(m, rng)
     else:
         text = corpus.rg_json_text(m)
     opts = {'--paging': 'never'}
